@@ -1,0 +1,16 @@
+//go:build verif
+
+package priorityqueue
+
+// VerifBacking returns a copy of the backing array of the underlying heap and the number of stored elements.
+// Read-only accessor for the verification harness.
+func (queue *Queue[E]) VerifBacking() ([]E, int) {
+	return queue.heap.VerifBacking()
+}
+
+// VerifBacking returns the wrapped queue's heap array and size.
+func (s *QueueSafe[E]) VerifBacking() ([]E, int) {
+	s.lock.Lock()
+	defer s.lock.Unlock()
+	return s.unsafe.VerifBacking()
+}
